@@ -52,6 +52,12 @@ type e2eHistory struct {
 	Late []bool   `json:"next_phase_ingested_before_query_executes,omitempty"`
 	// TreeFlush[i] = the periodic tags-tree flush (timeBasedTagsTreeFlush) happens after phase i, before the raced query
 	TreeFlush []bool `json:"tags_tree_flushed_after_phase,omitempty"`
+	// retention stream (retention.go): RetAges[i] = 1: phase i holds back-filled datapoints (40 days older than T0), 0: recent
+	// ones; RetRot[i] = the segment rotation after phase i; then the retention pass (cut at T0 - 20 days);
+	// RetPost = one more phase of recent datapoints and a rotation after the pass, before the restart
+	RetAges []int    `json:"retention_phase_holds_backfilled_data,omitempty"`
+	RetRot  []string `json:"retention_rotation_after_phase,omitempty"`
+	RetPost bool     `json:"retention_more_ingest_and_rotation_after_the_pass,omitempty"`
 }
 
 // observation: per stage, per series index, the points returned by a selector query
@@ -270,6 +276,10 @@ func workerMain(args []string) {
 		}
 	case "racerun":
 		out = raceRun(h, fail)
+	case "retrun":
+		out = retRun(h, fail)
+	case "retrestart":
+		out = retRestart(h, fail)
 	case "walrun":
 		// ingest, rotate the BLOCK (the segment stays open), ingest more, let the WAL buffer reach its file, die
 		if e := ingest(h, 0); len(e) > 0 {
@@ -663,4 +673,5 @@ func e2ePart(cfg vhlib.Config, sum *vhlib.Summary, r *vhlib.Rng) {
 		_ = os.RemoveAll(data)
 	}
 	racePart(cfg, sum, r.Fork()) // after the older streams, so that their histories stay the same for a given seed
+	retPart(cfg, sum, r.Fork())  // after the race stream, for the same reason
 }
